@@ -2,6 +2,7 @@
 import json
 
 import common as C
+import srctie
 from cli_args import cli_argv
 from props import C09 as L9
 
@@ -489,6 +490,11 @@ def grid():
 def run(ctx):
     rep = C.Report(ctx, META)
     rep.add_obligations(C.proof_obligations("C11"))
+    # source tie: SimpleRetryMiddleware.on_error is re-translated from the repository's source text and the committed
+    # proofs (generated = Retry.decide; C11 over the generated definition) are re-checked against it
+    src_obs, src_info = srctie.obligations(ctx, "retry", "C11")
+    rep.add_obligations(src_obs)
+    rep.extra["source_tie"] = src_info
     cc = [c for _, c in C.load_corpus("C11")]
     if cc:
         explore(ctx, rep, cc, "corpus")
